@@ -50,4 +50,15 @@ theorem log_enums_eq : (∀ s ∈ logLevels, s ∈ Cfg.logLevels) ∧ (∀ s ∈
 /-- every registered plugin other than `request-id` has a factory in the model -/
 theorem plugins_eq : plugins = ["custom-auth", "gzip", "headers", "logging", "request-id", "size_limit"] := by decide
 
+/-- **The shutdown protocol of the code is the one the model (Helios.Shut) steps through:**
+`Stop` cancels, joins the health-check loop, only then waits for the probes, then shuts the
+pool; `healthCheckWg.Add` is called only from the fan-out, which only the loop goroutine
+runs; a probe looks at the context before doing anything and its request is bound to it;
+the process-level shutdown drains the HTTP server before stopping the balancer. -/
+theorem shutdown_protocol :
+    stopSequence = ["cancel", "joinLoop", "wgWait", "poolShutdown"] ∧
+    wgAddFuncs = ["checkBackendsHealth"] ∧ fanoutCallers = ["startActiveHealthChecks"] ∧
+    probeChecksCtxFirst = true ∧ probeBoundToCtx = true ∧
+    gracefulSequence = ["serverShutdown", "lbStop"] := by decide
+
 end Helios.Facts
